@@ -205,9 +205,22 @@ SNAP_TREE_COMP = {"T_CONFIG": "config", "T_SEQUENCE": "sequences", "T_USER": "ta
                   "T_NAMING_INSTANCE": "naming", "T_DIRECT_CACHE": "cache"}
 
 
+def norm_naming(v):
+    """a service without instances (left behind when its last persistent instance is removed) is not persisted;
+    the property speaks of persistent service INSTANCES: an empty service shell counts as absent"""
+    if isinstance(v, dict):
+        if "instance_size" in v and v.get("instance_size") == 0 and not v.get("metadata"):
+            return None
+        return {k: norm_naming(x) for k, x in v.items()}
+    if isinstance(v, list):
+        return [norm_naming(x) for x in v]
+    return v
+
+
 def split_dump(d):
     """per-component views of a node dump; tables that no API serves go to 'out_of_scope'"""
     parts = {k: [d.get(k)] for k in ("config", "mcp", "naming", "cache", "index")}
+    parts["naming"] = [norm_naming(d.get("naming"))]
     seqs = d.get("sequences") or []
     parts["sequences"] = [[x for x in seqs if x[0] != "SEQ_CONFIG"]]
     parts["config"].append([x for x in seqs if x[0] == "SEQ_CONFIG"])
@@ -269,7 +282,7 @@ def run(chk, replay=None):
     mism = 0
 
     # ---- A. snapshot file: real SnapshotWriter / SnapshotReader vs RaftLog/SnapFile.v ----------------
-    sf_cases = gen_snapfile_cases(rng, 120 if tier == "quick" else 1500)
+    sf_cases = gen_snapfile_cases(rng, 300 if tier == "quick" else 3000)
     sf_impl = lib.harness_run_parallel("snapfile", sf_cases, env=env)
     exprs, idx = [], []
     for i, (c, r) in enumerate(zip(sf_cases, sf_impl)):
@@ -362,7 +375,7 @@ def run(chk, replay=None):
     # ---- C. restart oracle on a real single-node Raft ------------------------------------------------------
     samples = lib.harness_run("dispatch", [{"k": "samples"}], env=env)[0]["samples"]
     g = c07.Gen(rng, samples)
-    n_hist = 10 if tier == "quick" else 200
+    n_hist = 48 if tier == "quick" else 600
     rcases = []
     if replay:
         rp = json.load(open(replay))["replay"]
@@ -374,6 +387,7 @@ def run(chk, replay=None):
     compactions = 0
     planted = 0
     out_of_scope = 0
+    log_lost = 0
     diff_count = {}
     var_count = {}
     for c, r in zip(rcases, r_out):
@@ -394,6 +408,18 @@ def run(chk, replay=None):
                 continue
             before = split_dump(r["phases"][i - 1]["end_dump"])
             after = split_dump(ph["start_dump"])
+            growth = ph.get("log_growth_since_prev_end")
+            if isinstance(growth, int) and growth < 0:
+                # the raft log itself came back shorter (C02: acknowledged entries survive reopen) — everything the
+                # lost entries wrote is gone; that is the log layer's defect, seen through C01
+                log_lost += 1
+                pm = (r["phases"][i - 1].get("metrics") or {}).get("last_log_index")
+                sm = (ph.get("start_metrics") or {}).get("last_log_index")
+                chk.classify("C01:raft-log-loses-entries-on-reopen",
+                             "the raft log is shorter after the restart: last_log_index %s before the stop, %s after (phase %d, threshold %d)"
+                             % (pm, sm, i, c["threshold"]),
+                             {"suite": "restart", "case": c, "phase": i, "last_log_index_before": pm, "last_log_index_after": sm})
+                continue
             for comp in sorted(before):
                 if before[comp] == after[comp]:
                     continue
@@ -424,7 +450,8 @@ def run(chk, replay=None):
                                      "phases_with_catalogued_snapshot": compactions, "planted_partial_snapshots": planted,
                                      "requests_per_variant": var_count, "model_impl_mismatches": mism,
                                      "restart_differences_by_component_and_key": diff_count,
-                                     "out_of_scope_table_differences_not_judged": out_of_scope}
+                                     "out_of_scope_table_differences_not_judged": out_of_scope,
+                                     "restarts_with_shorter_raft_log": log_lost}
     chk.assumptions += [
         "C20 framing theorem (chunking invariance of MessageBufReader) in the 1024-byte-block instance: premise of the file-level theorems",
         "component round-trip laws (snapshot -> load_record reproduces an observationally equivalent state) and snap_routed: premises, "
